@@ -673,6 +673,33 @@ TCOLS = ['tc1', 'tc2', 'TC3', 'id']
 TABLES = ['int1.t1', 'int2.t2', 'int1.T3', 'int2.tab4', 't5']
 MODELS = ['mindsdb.pred', 'proj.pred2', 'pred', 'mindsdb.pred.3', 'proj.pred2.12', 'pred2', 'mindsdb.Pred']
 JOINS = ['join', 'join', 'join', 'inner join', 'left join', 'left join', 'right join', 'full join']
+
+
+def join_spellings():
+    """every connector the LIVE grammar allows between two FROM operands (derived from its productions by
+    tools/extract/x_c14join.py at run time), with the `Join.join_type` string the live parser makes of it"""
+    from tools.extract import x_c14join
+    return [sp for sp in x_c14join.spellings() if sp['jtype'] is not None and 'mindsdb' in sp['dialects']]
+
+
+def all_join_types():
+    """the join_type strings of every dialect's parser (an AST of any dialect can be planned)"""
+    from tools.extract import x_c14join
+    return sorted({sp['jtype'] for sp in x_c14join.spellings() if sp['jtype'] is not None})
+
+
+def respell(rng, text):
+    """the same keywords in another case / with other blanks"""
+    x = rng.random()
+    if x < 0.4:
+        text = text.lower()
+    elif x < 0.6:
+        text = text.title()
+    elif x < 0.7:
+        text = ''.join(c.upper() if rng.random() < 0.5 else c.lower() for c in text)
+    if rng.random() < 0.15:
+        text = text.replace(' ', rng.choice(['  ', '\t', ' \n ']))
+    return text
 CONSTS = ['1', '2', "'x'", '1.5', "'a b'", 'null', 'true', '-3']
 
 
@@ -680,6 +707,16 @@ class Gen:
     def __init__(self, rng, ci=0):
         self.rng = rng
         self.names = CAT_NAMES[ci]
+        sps = join_spellings()
+        self.explicit = [sp['sql'] for sp in sps if not sp['implicit']]
+        self.implicit = [sp['sql'] for sp in sps if sp['implicit']]
+
+    def join_words(self):
+        """half of the joins in the old proportions, half uniformly over EVERY spelling of the live grammar"""
+        r = self.rng
+        if r.random() < 0.5 or not self.explicit:
+            return r.choice(JOINS)
+        return respell(r, r.choice(self.explicit))
 
     def const(self):
         return self.rng.choice(CONSTS)
@@ -916,12 +953,16 @@ class Gen:
             r.shuffle(kinds)
         ops = [self.operand(k, i) for i, k in enumerate(kinds)]
         frm = []
+        # an implicit join chain (the grammar does not mix it with JOIN clauses and gives it no ON)
+        comma = r.choice(self.implicit) if self.implicit and r.random() < 0.06 else None
         for k, o in enumerate(ops):
             txt = o['name'] + ((' as %s' % o['alias']) if o['alias'] and r.random() < 0.5 else (' %s' % o['alias'] if o['alias'] else ''))
             if k == 0:
                 frm.append(txt)
+            elif comma is not None:
+                frm.append('%s %s' % (comma, txt))
             else:
-                s = '%s %s' % (r.choice(JOINS), txt)
+                s = '%s %s' % (self.join_words(), txt)
                 if r.random() < (0.6 if o['kind'] != 'mod' else 0.35):
                     s += ' on ' + self.on_cond(ops, k)
                 frm.append(s)
@@ -999,9 +1040,122 @@ SEEDS = [
 ]
 
 
+# ----------------------------------------------------------------------------- join types: what a spelling MEANS
+
+
+def sem_class(jtype):
+    """specification reading of a join-type string (independent of the planner; mirrored by `semClass` in
+    lean/MindsVerif/Model/JoinKind.lean and compared with it in the `join_kind` stream): the side words it contains,
+    wherever they stand.  A side-less OUTER JOIN names no operand whose unmatched rows may be dropped: 'outer'."""
+    w = (jtype or '').upper().split()
+    if 'FULL' in w or ('LEFT' in w and 'RIGHT' in w):
+        return 'full'
+    if 'LEFT' in w:
+        return 'left'
+    if 'RIGHT' in w:
+        return 'right'
+    if 'CROSS' in w:
+        return 'cross'
+    if 'OUTER' in w:
+        return 'outer'
+    return 'inner'
+
+
+def pads_right(cls):
+    """rows of the right operand can be replaced by NULLs"""
+    return cls in ('left', 'full', 'outer')
+
+
+def pads_left(cls):
+    """rows of everything joined before can be replaced by NULLs = every row of the right operand is kept"""
+    return cls in ('right', 'full', 'outer')
+
+
+def jslug(jtype):
+    return '-'.join((jtype or '').lower().split())
+
+
+def spelling_cases():
+    """every spelling of the live grammar x {table join, model join, three-table chains} x the shapes the push-down
+    decisions look at (ON constant conjunct, ON equality -> semi-join, IS [NOT] NULL on either side, LIMIT).
+    The spellings come from the grammar at run time; nothing here names one."""
+    sps = join_spellings()
+    ex = [sp['sql'] for sp in sps if not sp['implicit']]
+    im = [sp['sql'] for sp in sps if sp['implicit']]
+    out = []
+    for j in ex:
+        jl = j.lower()
+        out += [
+            'select * from int1.t1 a %s int2.t2 b on a.id = b.id and b.tc1 = 1 join mindsdb.pred m where m.mc1 = 1' % j,
+            'select * from int1.t1 a %s int2.t2 b on b.id = a.id join mindsdb.pred m where m.mc1 = 1 and a.tc1 = 2' % jl,
+            'select * from int1.t1 a %s int2.t2 b on 3 = b.tc2 join mindsdb.pred m on m.mc2 = b.tc2' % j,
+            'select * from int1.t1 a %s int2.t2 b on a.id = b.id join mindsdb.pred m '
+            'where b.tc1 is null and a.tc2 is null and b.tc2 is not null and a.tc1 is not null and m.mc1 = 1' % j,
+            'select * from int1.t1 a %s int2.t2 b join mindsdb.pred m where b.tc1 is null and a.tc2 = 1 limit 3' % jl,
+            'select * from int1.t1 a %s mindsdb.pred m on m.mc1 = a.tc1 where m.mc2 = 1 and a.tc1 is null and a.tc2 = 3' % j,
+            'select * from int1.t1 a join mindsdb.pred m %s int2.t2 b on b.id = a.id and b.tc1 = 2 where a.tc2 is null and b.tc2 is null' % j,
+            'select * from (select * from int1.t1) s %s int2.t2 b on s.id = b.id and b.tc1 = 1 join mindsdb.pred m where s.tc1 is null and b.tc2 is null' % j,
+            'select * from int1.t1 a %s (select * from int2.t2) s on s.id = a.id and s.tc1 = 1 join mindsdb.pred m where s.tc1 is null and a.tc2 is null' % j,
+            'select a.tc1 from int1.t1 a %s int2.t2 b on a.id = b.id join int1.T3 c on c.id = a.id join mindsdb.pred m limit 5' % j,
+        ]
+        for j2 in ex:
+            out.append('select * from int1.t1 a %s int2.t2 b on a.id = b.id and b.tc1 = 1 %s int1.T3 c on c.id = b.id and c.tc2 = 2 '
+                       'join mindsdb.pred m where a.tc1 is null and b.tc1 is null and c.tc1 is null' % (j, j2.lower()))
+    for c in im:
+        out += [
+            'select * from int1.t1 a %s mindsdb.pred m where m.mc1 = 1 and a.tc1 = 2 and a.tc2 is null' % c,
+            'select * from int1.t1 a %s int2.t2 b %s mindsdb.pred m where m.mc1 = 1 and a.tc1 is null and b.tc1 is null and a.id = b.id' % (c, c),
+            'select * from int1.t1 a %s int2.t2 b %s int1.T3 c %s mindsdb.pred m where b.tc1 = 1 limit 2' % (c, c, c),
+        ]
+    return out
+
+
+WORDS = ['LEFT', 'RIGHT', 'FULL', 'INNER', 'OUTER', 'CROSS', 'JOIN', 'NATURAL', 'ANTI', 'SEMI', 'LEFTJOIN', 'FULLY']
+
+
+def jtype_strings(rng, n):
+    """join-type strings for the classification stream: every string the live parser produces, in several cases and with
+    other blanks, plus word combinations no parser produces (hand-built ASTs reach the planner with them)"""
+    out = []
+    for jt in all_join_types():
+        out += [jt, jt.lower(), jt.title(), ' ' + jt, jt.replace(' ', '  '), jt.replace(' ', '\t') + ' ']
+    for _ in range(n):
+        ws = [rng.choice(WORDS) for _ in range(rng.choice([1, 2, 2, 3, 3, 4]))]
+        out.append(respell(rng, ' '.join(ws)).replace('\n', ' '))
+    seen, uniq = set(), []
+    for x in out:
+        if x.strip() and x not in seen:
+            seen.add(x)
+            uniq.append(x)
+    return uniq
+
+
+def observe_string(jt):
+    """the four push-down decisions of the REAL planner for a Join whose join_type is exactly `jt` (set on the parsed
+    AST, so any string reaches `PlanJoinTablesQuery`), read off the plan steps"""
+    from tools.extract import x_c14join
+    return x_c14join.observe_string(jt)
+
+
+def jk_line(jt):
+    return 'JK ' + enc(jt)
+
+
+def jk_expected(jt):
+    """what the Lean driver must print for `JK jt`, computed from the real planner and from `sem_class`"""
+    o = observe_string(jt)
+    b = lambda x: 'true' if x else 'false'
+    cls = sem_class(jt)
+    first = (jt.split() or [''])[0].lower()
+    # every demanded decision is taken (a more cautious one is fine); LIMIT stays at most under a LEFT class
+    respects = ((not pads_left(cls) or o['keepsRight']) and (not pads_right(cls) or o['padsRight']) and
+                (not pads_left(cls) or o['padsLeft']) and (not o['limitLeft'] or cls == 'left'))
+    return 'class=%s;kind=%s;keepsRight=%s;padsRight=%s;padsLeft=%s;limitLeft=%s;respects=%s' % (
+        cls, enc(first), b(o['keepsRight']), b(o['padsRight']), b(o['padsLeft']), b(o['limitLeft']), b(respects))
+
+
 # ----------------------------------------------------------------------------- the property oracle on real plans
 
-INNER_LEFT = ('join', 'inner join', 'left join', 'left outer join')
 ZERO_EQ = ('B', '=', ('K', '0'), ('K', '0'))
 
 
@@ -1257,16 +1411,39 @@ def oracle(res):
                      context='/'.join(context_of(origins[0][1])))
 
     # ---- clause 3: pushed filters are top-level conjuncts mentioning only that table
+    # `model JOIN table`: the planner swaps the two operands (the table is fetched first, the join type is not looked at)
+    swapped = len(ops) == 2 and ops[0].kind == 'mod'
     for (t, f, via) in fetch_filters:
         if t < 0:
             continue
-        if f[0] == 'B' and f[1] == 'in' and f[3][0] == 'P' and f[3][1].startswith('r:'):
-            continue            # semi-join reduction derived from an ON equality (C08's subject), not a user filter
         ok = False
         for c in tcs:
             sc = simple_cmp(ops, c)
             if sc is not None and sc[0] == t and strip_col(c) == f and all(resolve(ops, x[1]) == t for x in cols_of(c) if x[1]):
                 ok = True
+        if not ok and f[0] == 'B' and f[1] == 'in' and f[3][0] == 'P' and f[3][1].startswith('r:'):
+            # semi-join reduction derived from an ON equality (that it keeps the join result is C08's subject).  Which rows
+            # reach the model is ours: the right operand of a join that keeps all its rows (RIGHT / FULL / side-less OUTER,
+            # however spelled) must not be reduced to the keys of the other side
+            if not swapped and pads_left(sem_class(ops[t].jtype)):
+                fail('on-semijoin-outer-join:' + jslug(ops[t].jtype),
+                     'operand %d is the right operand of a %s, which keeps every row of it, but its fetch is restricted by the '
+                     'semi-join filter %s derived from the ON clause' % (t, ops[t].jtype, show_e(f)))
+            continue
+        if ok and f[0] == 'B' and f[1].lower() == 'is' and f[3] == ('K', 'None') and not swapped:
+            # `col IS NULL` accepts the NULLs an outer join puts in place of a missing row: applied before the join on the
+            # padded side it turns matched rows into padded ones, which then pass the outer WHERE (15097fa)
+            cause = None
+            if t >= 1 and pads_right(sem_class(ops[t].jtype)):
+                cause = ops[t].jtype
+            for k2 in range(t + 1, len(ops)):
+                if cause is None and pads_left(sem_class(ops[k2].jtype)):
+                    cause = ops[k2].jtype
+            if cause is not None:
+                fail('is-null-filter-on-padded-side:' + jslug(cause),
+                     'the rows of operand %d can be replaced by NULLs (%s), yet %s of WHERE is applied in its fetch' % (
+                         t, cause, show_e(f)))
+                continue
         on = ops[t].on
         on_hit = None
         if not ok and on is not None:
@@ -1274,10 +1451,11 @@ def oracle(res):
                 if strip_all(c) == strip_all(f) and all(resolve(ops, x[1]) == t for x in cols_of(c) if x[1]):
                     on_hit = c
             if on_hit is not None:
-                if ops[t].jtype.lower() in INNER_LEFT:
+                # inner / cross / left, however spelled: the ON clause restricts the right operand
+                if not pads_left(sem_class(ops[t].jtype)):
                     ok = True
                 else:
-                    fail('on-filter-outer-join:' + ops[t].jtype.lower().replace(' ', '-'),
+                    fail('on-filter-outer-join:' + jslug(ops[t].jtype),
                          'ON conjunct %s of a %s is pushed into the fetch of operand %d' % (show_e(on_hit), ops[t].jtype, t))
                     continue
         if ok:
@@ -1400,6 +1578,7 @@ def oracle(res):
     clash = any(i != j and ops[i].names()[-1] in ops[j].names() for i in range(len(ops)) for j in range(len(ops)))
     if clash:
         for f in fails:
-            if f['cls'] in ATTRIBUTION_CLASSES or f['cls'].startswith('on-filter-outer-join'):
+            if f['cls'] in ATTRIBUTION_CLASSES or f['cls'].startswith(('on-filter-outer-join', 'on-semijoin-outer-join',
+                                                                        'is-null-filter-on-padded-side')):
                 f['cls'] = 'alias-clash:' + f['cls']
     return fails
